@@ -29,6 +29,8 @@ import (
 	"math"
 	"math/big"
 	"math/rand"
+	"os"
+	"path/filepath"
 	"regexp"
 	"runtime"
 	"sort"
@@ -73,10 +75,47 @@ func numDecimals(v float64) int {
 
 const numNil = math.MinInt64 // a nil Number / Scale (never on the pinned code)
 
+// numScaledSrc: the expressions the translator recovered from the source of the tree under test (generator
+// scaledexpr; Generated/ScaledExpr.lean, line "-- HARNESS"); nil = not recovered: the harness's own expressions
+var (
+	numScaledSrcOnce sync.Once
+	numScaledSrcV    *h.ScaledSrc
+)
+
+func numScaledSrc() *h.ScaledSrc {
+	numScaledSrcOnce.Do(func() {
+		root := os.Getenv("VERIF_ROOT")
+		if root == "" {
+			root = filepath.Join("..", "..")
+		}
+		b, err := os.ReadFile(filepath.Join(root, "lean", "Spine", "Generated", "ScaledExpr.lean"))
+		if err != nil {
+			return
+		}
+		for _, l := range strings.Split(string(b), "\n") {
+			if strings.HasPrefix(l, "-- HARNESS ") {
+				var src h.ScaledSrc
+				if json.Unmarshal([]byte(strings.TrimPrefix(l, "-- HARNESS ")), &src) == nil && src.Known && src.Product != nil {
+					numScaledSrcV = &src
+				}
+			}
+		}
+	})
+	return numScaledSrcV
+}
+
 func numImpl(v float64) (numObs, *model.ScaledNumberType) {
 	sn := model.NewScaledNumberType(v)
+	// the intermediate columns `decimals` and `product`: the expressions RECOVERED FROM THE SOURCE, evaluated by the
+	// Go runtime (they tie the model's decimals count and product to the code's text, to strconv and to math)
 	nd := numDecimals(v)
 	p := v * math.Pow(10, float64(nd))
+	if src := numScaledSrc(); src != nil {
+		nd = src.Decimals(v)
+		if x, err := src.Product.Eval(h.FEnv{Param: v, Decimals: int64(nd)}); err == nil {
+			p = x
+		}
+	}
 	o := numObs{vb: math.Float64bits(v), nd: nd, pb: math.Float64bits(p), number: numNil, scale: -128}
 	if sn != nil && sn.Number != nil {
 		o.number = int64(*sn.Number)
@@ -1838,7 +1877,13 @@ func TestNumeric(t *testing.T) {
 	//      values of every segment below the least failing decimal must be exact and agree with the model; the
 	//      least failing decimal itself must fail (unless the member truncates, which keeps three of them).
 	{
-		W := int64(h.Scale(12000, 400000))
+		wOf := func(dd int) int64 { // at least one full period (<= 4*10^d) of every segment
+			w := int64(5 * numPow10f[dd])
+			if w < 2000 {
+				w = 2000
+			}
+			return w * int64(h.Scale(1, 8))
+		}
 		type seg struct {
 			d      int
 			k0, k1 int64
@@ -1860,7 +1905,7 @@ func TestNumeric(t *testing.T) {
 				if c >= numLeastFailing[dd] || c >= 1<<53 {
 					continue
 				}
-				k1 := c + W - 1
+				k1 := c + wOf(dd) - 1
 				if k1 >= numLeastFailing[dd] {
 					k1 = numLeastFailing[dd] - 1
 				}
@@ -1912,7 +1957,7 @@ func TestNumeric(t *testing.T) {
 		if !cfgT && lost != 8 {
 			r.Mismatch([]string{fmt.Sprintf("scaled %d 2", numLeastFailing[2])}, fmt.Sprintf("%d of the 8 least failing decimals (both signs) are lost", lost), "all 8 are lost by the member that rounds", "the least failing decimals of Props/C19 c19_scaled_exact_least_failures on the real code")
 		}
-		r.Info["directed_search_above_2^50"] = fmt.Sprintf("%d decimals (both signs): the first %d values of every segment of k in [2^50, least failing decimal) between powers of two of k and of v = k*10^-d, and 64 values below each boundary, compared with the model and judged by clause (a); least failing decimals %v: %d of 8 (both signs, d = 1..4) lost on this tree", nDir, W, numLeastFailing, lost)
+		r.Info["directed_search_above_2^50"] = fmt.Sprintf("%d decimals (both signs): the first %d (d = 4; at least 5*10^d, more than one period) values of every segment of k in [2^50, least failing decimal) between powers of two of k and of v = k*10^-d, and 64 values below each boundary, compared with the model and judged by clause (a); least failing decimals %v: %d of 8 (both signs, d = 1..4) lost on this tree", nDir, wOf(4), numLeastFailing, lost)
 		phase("directed-search")
 	}
 
@@ -2213,6 +2258,14 @@ func TestNumeric(t *testing.T) {
 	ps.flush(r)
 	phase("periods")
 
+	if src := numScaledSrc(); src != nil {
+		r.Info["scaled_expressions"] = fmt.Sprintf("decimals and product columns evaluated from the expressions recovered from the source: FormatFloat(value, %q, %d, %d) capped at %d; math.%s(%s)", rune(src.FmtVerb), src.FmtPrec, src.FmtBits, src.Cap, src.RoundFn, src.Product.Lean())
+		if (src.RoundFn == "Trunc") != cfgT || (src.GetNeg != nil && (src.GetNeg.Op != "div") != cfgI) {
+			r.Mismatch([]string{"scaled 29 2", "getval -199998 -1"}, fmt.Sprintf("probed member truncScaled=%v inexactPower=%v", cfgT, cfgI), fmt.Sprintf("source: math.%s, GetValue for a negative scale: %s", src.RoundFn, src.GetNeg.Lean()), "the member probed on the compiled code and the member the recovered source denotes differ")
+		}
+	} else {
+		r.Info["scaled_expressions"] = "NOT recovered from the source of this tree: decimals and product columns recomputed with the harness's own expressions"
+	}
 	r.Info["workers"] = numWorkers()
 	r.Info["member"] = map[string]bool{"truncScaled": cfgT, "inexactPower": cfgI}
 	if r.MismatchN == 0 {
